@@ -173,7 +173,13 @@ func fsmApplyAdd(c *Ctx, rule string, applyAdd *ssa.Function) {
 	mcall := callCommon(muts[0].in)
 	mt := rg.Term(muts[0].site, mcall.Args[0])
 	hasTree := mt.Has(func(t *Term) bool { return t.Op == "extract" && t.Idx == 1 && t.Args[0].IsCallTo(addBulk) })
-	stateI := applyAdd.Signature.Params().Len() // index of the state param (receiver is 0)
+	// index of the state parameter, by type (applyAdd may be a method of the node or a function taking it)
+	stateI := len(applyAdd.Params) - 1
+	for i, par := range applyAdd.Params {
+		if namedIs(par.Type(), pkgConsensus, "fsmState") {
+			stateI = i
+		}
+	}
 	hasState := mt.Has(func(t *Term) bool {
 		if t.Op != "call" || t.Fn == nil || t.Fn.Name() != "NewMutation" || len(t.Args) != 3 {
 			return false
